@@ -1,25 +1,62 @@
 (* C15 — jobs start only after the jobs they consume have succeeded; every job exactly once.
-   Asynchronous loop (Submitter.expand_workflow_async), for every oracle = every completion order,
-   every pattern of "seen running", every max_concurrent, every set of failing jobs. *)
-From Pydra Require Import Base.Prelude Base.SchedBase Model.Sched Spec.Sched Proofs.SchedG.
+   Both execution loops of pydra.engine.submitter.Submitter, for every oracle (= every completion
+   order, several completions per wake-up, every pattern of jobs "seen running"), every
+   max_concurrent, every set of failing jobs, every graph listed in topological order. *)
+From Pydra Require Import Base.Prelude Base.SchedBase Model.Sched Spec.Sched Proofs.SchedG Proofs.SchedH Proofs.SchedI.
+
+Section C15.
+Variable V : Type.
+Variable body : nat -> nat -> list (list (option V)) -> V.
+Variable fails : job -> bool.
+Variable vr : variant.
+Variable g : graph.
+Variable kmax : option nat.
+Hypothesis F14 : fix14 vr = true.      (* the model of the code after the F14 repair; see C14.v *)
+Hypothesis WF : wf_graph g.
 
 Theorem C15_safety :
-  forall (V : Type) (body : nat -> nat -> list (list (option V)) -> V) (fails : job -> bool)
-         (vr : variant) (g : graph) (kmax : option nat),
-    fix14 vr = true -> wf_graph g ->
-    forall orc fuel, starts_after_upstream g (event_log (run_async V body fails vr g kmax orc fuel)).
+  forall orc fuel, starts_after_upstream g (event_log (run_async V body fails vr g kmax orc fuel)).
 Proof. intros. apply async_safety; assumption. Qed.
-Print Assumptions C15_safety.
 
 Theorem C15_at_most_once :
-  forall (V : Type) (body : nat -> nat -> list (list (option V)) -> V) (fails : job -> bool)
-         (vr : variant) (g : graph) (kmax : option nat),
-    fix14 vr = true -> wf_graph g ->
-    forall orc fuel, at_most_once (event_log (run_async V body fails vr g kmax orc fuel)).
+  forall orc fuel, at_most_once (event_log (run_async V body fails vr g kmax orc fuel)).
 Proof. intros. apply async_at_most_once; assumption. Qed.
-Print Assumptions C15_at_most_once.
 
-(* the hypotheses are met by the repaired code on a diamond with a split node *)
+Theorem C15_all_run :
+  (forall j, fails j = false) ->
+  forall orc fuel, o_status (run_async V body fails vr g kmax orc fuel) = Finished ->
+  every_job_once g (event_log (run_async V body fails vr g kmax orc fuel)).
+Proof. intros. apply async_all_run; assumption. Qed.
+
+Theorem C15_sync_safety :
+  forall fuel, starts_after_upstream g (event_log (run_sync V body fails vr g kmax fuel)).
+Proof. intros. apply sync_safety; assumption. Qed.
+
+Theorem C15_sync_at_most_once :
+  forall fuel, at_most_once (event_log (run_sync V body fails vr g kmax fuel)).
+Proof. intros. apply sync_at_most_once; assumption. Qed.
+
+Theorem C15_sync_all_run :
+  (forall j, fails j = false) ->
+  forall fuel, o_status (run_sync V body fails vr g kmax fuel) = Finished ->
+  every_job_once g (event_log (run_sync V body fails vr g kmax fuel)).
+Proof. intros. apply sync_all_run; assumption. Qed.
+End C15.
+
+Print Assumptions C15_safety.
+Print Assumptions C15_at_most_once.
+Print Assumptions C15_all_run.
+Print Assumptions C15_sync_safety.
+Print Assumptions C15_sync_at_most_once.
+Print Assumptions C15_sync_all_run.
+
+(* the hypotheses are met by the repaired code on a diamond with split nodes, and such a run does
+   end by itself (status Finished) with all 7 jobs launched *)
 Example C15_hyps_nonvacuous :
-  fix14 repaired = true /\ wf_graph [mkNode 0 [] 2; mkNode 1 [0] 1; mkNode 2 [0] 3; mkNode 3 [1; 2] 1].
-Proof. split; reflexivity. Qed.
+  let g := [mkNode 0 [] 2; mkNode 1 [0] 1; mkNode 2 [0] 3; mkNode 3 [1; 2] 1] in
+  fix14 repaired = true /\ wf_graph g /\
+  o_status (run_async unit (fun _ _ _ => tt) (fun _ => false) repaired g (Some 2)
+              [mkStep [1] [true]; mkStep [0; 5] [false; true]] 40) = Finished /\
+  List.length (launches (run_async unit (fun _ _ _ => tt) (fun _ => false) repaired g (Some 2)
+              [mkStep [1] [true]; mkStep [0; 5] [false; true]] 40)) = 7.
+Proof. vm_compute. repeat split. Qed.
